@@ -119,6 +119,25 @@ def cases(tier, rng):
         # (b) field x boundary values on the saved game (every field of the embedded map and of the unit block)
         if i < (4 if thorough else 2):
             yield from field_cases("s", expr, sg.bytes_, fields, "saved")
+    # (f) the reader is handed over at a non-zero position (a map embedded behind other data), and is read again where the
+    #     first read stopped: the stream's end is the limit wherever the cursor started
+    for i in range(6 if thorough else 3):
+        m = R.rnd_map(rng, big=(i == 0)); b = m.encode()
+        for skip in (1, 64, 4097):
+            want = m.dump(len(b))
+            yield Case(f"!map.readat m {skip} g{skip}:3+{hexs(b)}", tag="map-behind-prefix",
+                       check=(lambda o, want=want: None if o == want + " 2nd=err" else f"property demands {want + ' 2nd=err'!r}, implementation returned {o[:200]!r}"))
+            for cut in sorted({0, 1, len(b) // 2, len(b) - 1}):
+                yield Case(f"!map.readat m {skip} g{skip}:3+{hexs(b)}@{skip + cut}", expect="err", tag="truncated-map-behind-prefix")
+        sg = R.SavedGame(m, rest=b"", unitCount=0, sizeOfUnit=120, nextFree=0, firstFree=0, c1=0, c2=0)
+        expr, n = sg.pieces([])
+        for skip in (1, 64):
+            want = sg.dump(n)
+            yield Case(f"!map.readat s {skip} g{skip}:3+{expr}", tag="saved-behind-prefix",
+                       check=(lambda o, want=want: None if o == want + " 2nd=err" else f"property demands {want + ' 2nd=err'!r}, implementation returned {o[:200]!r}"))
+            for cut in sorted({0, 40, R.SKIP - skip, R.SKIP - 1, R.SKIP, R.SKIP + 3, n - 1}):
+                if 0 <= cut < n:
+                    yield Case(f"!map.readat s {skip} g{skip}:3+{expr}@{skip + cut}", expect="err", tag="truncated-saved-behind-prefix")
     # (b) field x boundary values on maps
     for i in range(12 if thorough else 4):
         m = R.rnd_map(rng, lg=rng.choice([0, 1, 3]), h=rng.choice([1, 2, 3]))
